@@ -156,6 +156,11 @@ def compare_state(scene, st, after_reopen=False, findings=None):
     findings = findings if findings is not None else []
     if st["s"]["broken"]:
         return
+    if st["s"].get("grp", "live") == "removed":
+        problems = scene.observe_removed()
+        if problems:
+            raise Mismatch("group-removal", f"after workspace.remove_entity(group): {problems[:4]}")
+        return
     # (1) API view
     want = exp_api(st)
     got = got_api(scene)
